@@ -294,7 +294,7 @@ static void run_config(const Config & c, uint64_t seed, long n_iid, int n_grid)
           // (two re-initialisations of the reference per probe: many for the modes whose tables are cheap - the pass of the deep steering
           // that is guided by the number of deviates lands on hundreds of such boundaries per configuration - few for the quadrature modes)
           const bool cheap_tables = !(c.mode == 4 || c.mode == 5 || c.mode == 6 || c.mode == 8 || c.mode == 13 || c.mode == 14 || c.mode == 15 || c.mode == 16 || c.mode == 19);
-          const int cap = cheap_tables ? 5000 : 600;
+          const int cap = cheap_tables ? 800 : 40;
           if (probes >= cap && probe_confirmed >= cap && probe_refuted == 0) {
             // budget spent, every one of the probes of this configuration confirmed the recorded root cause and none refuted it, and the
             // in-place clamp did act while the reference made this event: attributed without a replay (a defect of another kind would
@@ -362,7 +362,9 @@ static void run_config(const Config & c, uint64_t seed, long n_iid, int n_grid)
     // deep steering through the daughter's de-excitation cascade (thresholds given on the spec line)
     long deep_events = getenv("VERIF_DEEP_EVENTS") ? atol(getenv("VERIF_DEEP_EVENTS")) : 0;
     if (deep_events > 0 && !c.thr.empty()) {
-      const long pass2 = std::min(deep_events / 3, 1500000L);
+      // (bounded to what the quick tier explores: at thorough budgets this pass lands on tens of thousands of acceptance boundaries where the
+      //  reference's in-place clamp acts - more than the replay probes can attribute one by one; see DESIGN 7.4, round 11)
+      const long pass2 = std::min(deep_events / 3, 50000L);
       ds = deep_steer(tape, seed, stream + (1ULL << 22), c.thr, deep_events - pass2, 4, [&](const std::string & steer, size_t & d) {
         one(steer);
         d = last_draws;
